@@ -11,20 +11,22 @@ RULE = ("cases = FunctionEstimator configurations (kernel tree, 1-D or multi-D x
         "landmarks, with/without Xnew); each case evaluates the affine, column-independence, multi_fit transpose, "
         "interpolation, constant-vector-sigma and shrinkage relations on the implementation and compares one prediction "
         "with the Lean model; distinct = payload hash; non-trivial = prediction differs from mu")
-PARTIAL = ["monotone shrinkage towards mu as sigma grows is proved in the eigen-coordinates only in spirit: the Lean theorem "
-           "set covers linearity, column independence, interpolation identity and constant-vector = scalar; monotonicity of "
-           "the norm is checked numerically on a sigma grid"]
+PARTIAL = ["monotone shrinkage towards mu as sigma grows is proved (shrinks_with_sigma: sum_i (predictor(x_i) - mu)^2 does not grow "
+           "with sigma^2, via ridge shrinkage Shrink.shrink_mono) for a PSD kernel - PSD-ness is proved for ExpQuad / Linear "
+           "expression trees and a named hypothesis for the Matern / Exponential / RatQuad leaves; per-cell sigma vectors and "
+           "float64 rounding: checked numerically on a sigma grid"]
 ASSUMPTIONS = ["relations compared within c*eps*cond(K+N) (cond from the implementation's own kernel matrix)"]
 CLAIM = {
     "text": "Lean theorems over R: triangular solves and therefore the weights are linear in the right-hand side "
             "(weights(a r1 + r2) = a weights(r1) + weights(r2), by induction over the substitution recurrences), hence the "
             "prediction is affine in (y, mu); matrix right-hand sides are solved column by column (column independence); "
             "with y_is_mean or sigma^2 <= jitter the in-sample error is exactly -jitter*w; a constant per-cell sigma vector "
-            "builds the same noise factor as the scalar. Tied to /repo by running FunctionEstimator.fit_predict / "
+            "builds the same noise factor as the scalar; the in-sample deviation from mu shrinks monotonically as sigma^2 grows "
+            "(PSD kernel). Tied to /repo by running FunctionEstimator.fit_predict / "
             "multi_fit_predict / predict and the model driver on the same inputs and by metamorphic oracles.",
-    "note": "Shrinkage monotonicity in sigma is numeric only (PARTIAL). Vector sigma together with landmarks m != n is a shape "
+    "note": "Shrinkage monotonicity assumes a PSD kernel (proved for ExpQuad/Linear trees, hypothesis otherwise). Vector sigma together with landmarks m != n is a shape "
             "error of the implementation (recorded under C15). Float64 modelled away.",
-    "technique": "Lean 4 proof (linearity of forward/back substitution by induction) + metamorphic and differential checks",
+    "technique": "Lean 4 proof (linearity of forward/back substitution by induction; ridge shrinkage for PSD matrices) + metamorphic and differential checks",
 }
 
 
